@@ -465,11 +465,13 @@ impl StrokeCtx {
             chord_ref = d23;
             chord_ref_hypot2 = chord_ref.hypot2();
         }
-        // Project Bézier onto chord
-        let p0 = c.p0.to_vec2().dot(chord_ref);
-        let p1 = c.p1.to_vec2().dot(chord_ref);
-        let p2 = c.p2.to_vec2().dot(chord_ref);
-        let p3 = c.p3.to_vec2().dot(chord_ref);
+        // Project Bézier onto chord, relative to the start point. (Projecting the
+        // positions themselves loses the differences tested below to rounding when the
+        // curve is short compared to its distance from the origin.)
+        let p0 = 0.0;
+        let p1 = d01.dot(chord_ref);
+        let p2 = (c.p2 - c.p0).dot(chord_ref);
+        let p3 = chord.dot(chord_ref);
         const ENDPOINT_D: f64 = 0.01;
         if p3 <= p0
             || p1 > p2
